@@ -896,6 +896,7 @@ func (f *Frame) aimCall(c *ssa.CallCommon, args []Val, in ssa.Instruction, st *P
 	}
 	name := callee.Name()
 	what := dirRe.ReplaceAllString(callee.String(), "")
+	f.markCalled(what, st)
 	inMod := callee.Pkg != nil && strings.HasPrefix(callee.Pkg.Pkg.Path(), modPath)
 	if !inMod && callee.Pkg != nil {
 		// library function: cannot touch aim fields; callbacks it is handed are closures of this function
@@ -1035,7 +1036,7 @@ func (ct *Contract) splitAim() {
 
 // aimView: the clauses of a contract that matter in aim mode.
 func (ct *Contract) aimView() *Contract {
-	n := &Contract{Pkg: ct.Pkg, Target: ct.Target, AimCheck: ct.AimCheck, AimExempt: ct.AimExempt, AimExemptWhy: ct.AimExemptWhy, AimAlso: ct.AimAlso, Invs: map[string][]Clause{}, File: ct.File, Line: ct.Line}
+	n := &Contract{Pkg: ct.Pkg, Target: ct.Target, AimCheck: ct.AimCheck, AimExempt: ct.AimExempt, AimExemptWhy: ct.AimExemptWhy, AimAlso: ct.AimAlso, MustCall: ct.MustCall, Invs: map[string][]Clause{}, File: ct.File, Line: ct.Line}
 	n.Requires, n.Ensures, n.Claims = ct.AimReq, ct.AimEns, ct.AimClaims
 	for k, cs := range ct.AimInvs {
 		n.Invs[k] = cs
@@ -1073,6 +1074,7 @@ func (ct *Contract) aimOnly() bool {
 
 func (ct *Contract) mergeAim(a *Contract) {
 	ct.NoWrite = append(ct.NoWrite, a.NoWrite...)
+	ct.MustCall = append(ct.MustCall, a.MustCall...)
 	if a.AimCheck == nil {
 		return
 	}
@@ -1424,4 +1426,57 @@ func (ai *AimInfo) fieldExists(name string) bool {
 		}
 	}
 	return false
+}
+
+// ---------------------------------------------------------------- mustcall: the hooks a consensus entry point has to run
+
+const mustCallHeap = "G:mustcall"
+
+func (ex *Exec) mustCallIdx(name string) int {
+	if ex.topFrame == nil || ex.topFrame.contract == nil {
+		return -1
+	}
+	k := 0
+	for _, mc := range ex.topFrame.contract.MustCall {
+		for _, n := range strings.Fields(strings.ReplaceAll(mc.Src, ",", " ")) {
+			k++
+			if strings.HasSuffix(name, n) {
+				return k
+			}
+		}
+	}
+	return -1
+}
+
+// markCalled: a function named in a mustcall clause is being called on this path.
+func (f *Frame) markCalled(what string, st *PState) {
+	ex := f.ex
+	k := ex.mustCallIdx(what)
+	if k < 0 {
+		return
+	}
+	hs := ArrS(SInt, SBool)
+	ex.setH(st, mustCallHeap, hs, sto(ex.H(st, mustCallHeap, hs), fmt.Sprint(k), "true"))
+}
+
+// mustCallObligations: at every return, each listed function has been called on the path that got there.
+func (f *Frame) mustCallObligations(ct *Contract, entry *PState, rets []retInfo) {
+	ex := f.ex
+	hs := ArrS(SInt, SBool)
+	k := 0
+	for _, mc := range ct.MustCall {
+		for _, n := range strings.Fields(strings.ReplaceAll(mc.Src, ",", " ")) {
+			k++
+			var goals []string
+			for _, r := range rets {
+				goals = append(goals, implies(r.st.reach, sel(ex.H(r.st, mustCallHeap, hs), fmt.Sprint(k))))
+			}
+			tag := mc.Tag
+			if tag == "" {
+				tag = "mustcall"
+			}
+			ex.vc.AddObligation(&Obligation{Name: fmt.Sprintf("%s/%s/mustcall[%s]", tag, ex.oblPrefix, n), Tag: tag, Kind: "mustcall", Func: ex.top.String(),
+				Goal: and(goals...), Desc: fmt.Sprintf("every path that reaches a return has called %s (a hook that is skipped on some path silently drops its block-level duty)", n)})
+		}
+	}
 }
